@@ -446,14 +446,16 @@ func (b *assignmentBuilder) castNode(lhsType types.Type, rhs bmodel.Node) (c bmo
 
 // isStructFieldAccessible returns true if the given struct field is accessible from the current package.
 func (b *assignmentBuilder) isStructFieldAccessible(structNode bmodel.Node, leafName string) bool {
-	structType := util.DerefPtr(structNode.ExprType())
-	if !util.IsStructType(structType) {
+	if !util.IsStructType(util.DerefPtr(structNode.ExprType())) {
 		return false
 	}
 	// An unexported name is visible in the package that declares it and nowhere else,
 	// whatever type it is reached through: a local type defined over an imported struct
 	// and an unnamed struct inside an imported type still have foreign members.
-	obj, _, _ := types.LookupFieldOrMethod(structType, true, b.pkg.Types, leafName)
+	// A method with a pointer receiver is out of reach on a value that has no address,
+	// such as the result of another getter.
+	addressable := util.IsPtr(structNode.ExprType()) || isAddressable(structNode)
+	obj, _, _ := types.LookupFieldOrMethod(structNode.ExprType(), addressable, b.pkg.Types, leafName)
 	return obj != nil
 }
 
@@ -518,7 +520,7 @@ func (b *assignmentBuilder) resolveExpr(matcher *option.IdentMatcher, root bmode
 		isLast := matcher.PathLen() == i+1
 		pkg := util.PkgOf(typ)
 
-		obj, _, _ := types.LookupFieldOrMethod(typ, true, pkg, matcher.NameAt(i))
+		obj, _, _ := types.LookupFieldOrMethod(typ, util.IsPtr(typ) || isAddressable(node), pkg, matcher.NameAt(i))
 		if obj == nil {
 			return
 		}
@@ -598,7 +600,7 @@ func (b *assignmentBuilder) resolveTemplatedExpr(
 		isLast := matcher.PathLen() == i+1
 
 		pkg := util.PkgOf(typ)
-		obj, _, _ := types.LookupFieldOrMethod(typ, true, pkg, matcher.NameAt(i))
+		obj, _, _ := types.LookupFieldOrMethod(typ, util.IsPtr(typ) || isAddressable(node), pkg, matcher.NameAt(i))
 		if obj == nil {
 			return
 		}
